@@ -89,8 +89,10 @@ def check_bump(b0, f0, b1, f1, maxb, maxf, where):
             m = int((a1 - a0).argmin())
             out.append(("bump_lowered_" + nm, "%s: %s month %d lowered %.10g -> %.10g" % (where, nm, m, a0[m], a1[m])))
         raised = a1 > a0 + 1e-9 * sc
-        over = (a1 - mx)[raised]
-        if over.size and over.max() > 1e-6:
+        # raised beyond the schedule - or, where it already stood above the schedule, raised at all (beyond the 1e-9 the helper's
+        # own division guard leaks)
+        over = (a1 - np.maximum(mx, a0))[raised]
+        if over.size and over.max() > 1e-6 + 1e-9 * sc:
             m = int(np.where(raised)[0][over.argmax()])
             out.append(("bump_raised_above_demand_" + nm, "%s: %s month %d raised %.10g -> %.10g above its demand %.10g" % (where, nm, m, a0[m], a1[m], mx[m])))
     return out
@@ -236,8 +238,17 @@ def direct(case):
                 f0 = maxf * np.array([rnd.choice([0, 0.5, 1, rnd.random()]) for _ in range(N)])
                 if rnd.random() < 0.15:
                     f0 = f0 * (1 + 1e-9)  # within rounding of its demand
+                above = rnd.random() < 0.25
+                if above:
+                    # some months start above their demand schedule (arbitrary series): nothing may be lowered, and what is already
+                    # above its schedule may not be raised further
+                    f0 = f0 * np.array([rnd.choice([1, 1, 1.2, 2]) for _ in range(N)]) + (maxf == 0) * np.array([rnd.choice([0, 0, 1.0]) for _ in range(N)])
+                    b0 = b0 * np.array([rnd.choice([1, 1, 1.2, 2]) for _ in range(N)])
                 inc = _series(rnd, N, scale * rnd.choice([0.01, 0.3, 2]))
                 crops = (b0 + f0) * np.array([rnd.choice([1, 1.5, 3, rnd.uniform(1, 2)]) for _ in range(N)]) + _series(rnd, N, scale * 0.1)
+                if rnd.random() < 0.25:
+                    # crops already over-committed in some months (less available than what feed and biofuel take)
+                    crops = crops * np.array([rnd.choice([1, 1, 0.8, 0.3]) for _ in range(N)])
                 args = [x.copy() for x in (b0, f0, inc, maxb, maxf, crops)]
                 b1, f1 = Parameters().increase_biofuels_then_feed(b0, f0, inc, maxb, maxf, crops)
                 for x, y in zip((b0, f0, inc, maxb, maxf, crops), args):
